@@ -99,7 +99,33 @@ class VMany(Component):
     for i in range(n): s.out[i] //= s.in_[i]
 
 
+class VRstChild(Component):
+  def construct(s):
+    s.in_ = InPort(2); s.out = OutPort(2)
+    @update_ff
+    def up_rc():
+      if s.reset: s.out <<= 2
+      else:       s.out <<= s.in_
+
+
+class VRst(Component):
+  """registers with a synchronous reset, one in a child (its reset port is on the top's reset net); driven with the reset
+  symbolic in every cycle (items with reset='sym'), which contains every sim_reset()-like prefix"""
+  def construct(s):
+    s.in_ = InPort(2); s.out = OutPort(2); s.cnt = OutPort(2); s.rcopy = OutPort(1)
+    s.c = VRstChild()
+    s.c.in_ //= s.in_; s.out //= s.c.out
+    s.rcopy //= s.reset
+    @update_ff
+    def up_rs():
+      if s.reset: s.cnt <<= 1
+      else:       s.cnt <<= s.cnt + 1
+
+
 # ports driven symbolically (default: every top-level input)
 SYMBOLIC_PORTS = {'VMany': ['s.in_[0]', 's.in_[97]'], 'VConsts': ['s.a', 's.c']}
 
-DESIGNS = {'VMany': VMany, 'VOnce': VOnce, 'VConsts': VConsts, 'VInc': VInc, 'VReg': VReg, 'VStruct': VStruct, 'VHier': VHier, 'VRegChain': VRegChain}
+DESIGNS = {'VMany': VMany, 'VOnce': VOnce, 'VConsts': VConsts, 'VInc': VInc, 'VReg': VReg, 'VStruct': VStruct, 'VHier': VHier, 'VRegChain': VRegChain, 'VRst': VRst}
+
+# designs also explored with s.reset symbolic in every cycle
+SYM_RESET = ['VRst', 'VReg', 'VHier']
